@@ -1519,6 +1519,10 @@ def op_pack(w, op):
                 ("create_dataset(data=marker)", lambda: g0.create_dataset(t2, data=np.void(b"\x7f"))),
                 ("one-field record", lambda: g0.__setitem__(t2, np.array((0x7F,), dtype=[("a", "u1")])[()])),
             ]
+            h5d = [x for x in w.drv if x.kind == "h5"]
+            if h5d:
+                # the node as it sits in the plain HDF5 container, copied across containers
+                spellings.append(("node copied from a plain HDF5 container", lambda: g0.copy(h5d[0].mc[full], t2)))
             for what, fn2 in spellings:
                 try:
                     fn2()
